@@ -909,22 +909,19 @@ Proof.
           - unfold pc_ok in Hok. rewrite H in Hok. destruct Hok as (E1 & _). congruence.
           - unfold pc_ok in Hok. rewrite Hp in Hok. destruct Hok as (_ & _ & E1 & _).
             rewrite E1 in Hnd. discriminate. }
-        destruct (box st) as [|[lowest m0] t] eqn:Ebox; [apply Hdrv; exact HWG|].
-        destruct (existsb (waits_le lowest) (rds st)) eqn:Ewl; [|apply Hdrv; exact HWG].
+        destruct (existsb (waits_buffered st) (rds st)) eqn:Ewl; [|apply Hdrv; exact HWG].
+        (* a subscriber waits for a buffered message: it is in RWait with a true predicate, so it is
+           woken (no lost wake-up) and can run *)
         apply existsb_exists in Ewl. destruct Ewl as (r & Hin & Hwl).
         apply In_nth_error in Hin. destruct Hin as (i & Hi).
-        unfold waits_le in Hwl. destruct (r_waiting r) as [x|] eqn:Ewait; [|discriminate].
-        apply Nat.leb_le in Hwl.
-        pose proof (box_hd _ _ _ _ HM Ebox) as Hlow.
-        pose proof (box_len _ HM) as Hlen. rewrite Ebox in Hlen. cbn [length] in Hlen.
+        unfold waits_buffered in Hwl. destruct (r_waiting r) as [x|] eqn:Ewait; [|discriminate].
         destruct (HR _ _ Hi) as [Hle Hok].
         destruct (Hrd _ _ Hi) as [H|[H|(n & Hp & Hwk)]].
         * unfold pc_ok in Hok. rewrite H in Hok. destruct Hok as (_ & E1 & _). congruence.
         * unfold pc_ok in Hok. rewrite H in Hok. destruct Hok as (_ & E1 & _). congruence.
-        * destruct (waiter_beyond _ _ _ _ HM Ek HWR Hi Hp Hwk) as [H1 H2].
+        * pose proof (HWR _ _ _ Hi Hp Hwk) as Hnr. unfold next_ready in Hnr.
           unfold pc_ok in Hok. rewrite Hp in Hok. destruct Hok as (_ & _ & E1 & _).
-          assert (x = n) by congruence. subst x.
-          pose proof (min_nread_le _ _ _ Hi). lia.
+          assert (x = n) by congruence. subst x. rewrite Hwl in Hnr. discriminate.
       + (* SSendWait, not woken: the box is full *)
         exfalso. specialize (HWS _ _ _ Epc Hs). unfold can_write in HWS. rewrite Ek, orb_false_r in HWS.
         unfold room in HWS. destruct (c_cap cfg) as [c|] eqn:Ec; [|discriminate].
